@@ -90,7 +90,21 @@ fn mutations(kind: &str, seed: &[u8], thorough: bool) -> Vec<Vec<u8>> {
                 for idx in ["/Index[0 9223372036854775807]", "/Index[9223372036854775807 2]", "/Index[0 1000000000]", "/Index[-5 10]"] { let mut m2 = m.clone(); if let Some(q) = find(&m2, b"/Length") { let tail = m2.split_off(q); m2.extend_from_slice(idx.as_bytes()); m2.extend_from_slice(&tail); out.push(m2); } } }
         }
         if let Some(p) = find(seed, b"/Prev ") { let mut m = seed.to_vec(); let own = find(seed, b"startxref\n").map(|q| &seed[q + 10..]).and_then(|t| std::str::from_utf8(&t[..t.iter().position(|c| *c == b'\n').unwrap_or(0)]).ok()).unwrap_or("0").to_string(); let e = p + 6 + seed[p + 6..].iter().position(|c| !c.is_ascii_digit()).unwrap_or(0); m.splice(p + 6..e, own.bytes()); out.push(m); }
-        out.push(b"%PDF-1.5\n1 0 obj\n<</Length 1 0 R>>\nstream\nabc\nendstream\nendobj\n2 0 obj\n<</Type/Catalog/Pages 3 0 R>>\nendobj\n3 0 obj\n<</Type/Pages/Kids[3 0 R 3 0 R]/Count 99999999999>>\nendobj\nxref\n0 4\n0000000000 65535 f \n0000000009 00000 n \n0000000068 00000 n \n0000000113 00000 n \ntrailer\n<</Size 4/Root 2 0 R>>\nstartxref\n182\n%%EOF".to_vec());
+        // reference cycles with valid offsets: indirect /Length to itself and through a second stream, Kids cycle, huge Count
+        for lens in [["1 0 R", "5"], ["4 0 R", "1 0 R"]] {
+            let mut f = b"%PDF-1.5\n".to_vec();
+            let mut offs = vec![];
+            offs.push(f.len()); f.extend_from_slice(format!("1 0 obj\n<</Length {}>>\nstream\nabcde\nendstream\nendobj\n", lens[0]).as_bytes());
+            offs.push(f.len()); f.extend_from_slice(b"2 0 obj\n<</Type/Catalog/Pages 3 0 R>>\nendobj\n");
+            offs.push(f.len()); f.extend_from_slice(b"3 0 obj\n<</Type/Pages/Kids[3 0 R 3 0 R 5 0 R]/Count 99999999999>>\nendobj\n");
+            offs.push(f.len()); f.extend_from_slice(format!("4 0 obj\n<</Length {}>>\nstream\nabcde\nendstream\nendobj\n", lens[1]).as_bytes());
+            offs.push(f.len()); f.extend_from_slice(b"5 0 obj\n<</Type/Page/Parent 3 0 R/Contents 1 0 R>>\nendobj\n");
+            let xr = f.len();
+            f.extend_from_slice(b"xref\n0 6\n0000000000 65535 f \n");
+            for o in &offs { f.extend_from_slice(format!("{:010} 00000 n \n", o).as_bytes()); }
+            f.extend_from_slice(format!("trailer\n<</Size 6/Root 2 0 R>>\nstartxref\n{}\n%%EOF", xr).as_bytes());
+            out.push(f);
+        }
     }
     // nesting depth sweeps
     let depths: Vec<usize> = if thorough { vec![50, 99, 100, 101, 300, 3000, 20000, 100000] } else { vec![99, 100, 101, 300, 3000] };
